@@ -141,7 +141,7 @@ fn positive_control(opts: &Opts, base: &Frame) -> Result<(), String> {
 }
 
 fn run(c: &mut Ctx) {
-    let n_bases = c.tier.pick(2usize, 24usize); // per worker
+    let n_bases = c.tier.pick(6usize, 40usize); // per worker
     let ctx_strat = (base_frame(), gen::opts_ur(), proptest::collection::vec(any::<u32>(), 64), proptest::collection::vec((6u32..112, any::<u128>(), 3u32..=20), 400));
     let draws = c.draw(n_bases, ctx_strat);
     for (base, opts, inner, randoms) in draws {
